@@ -50,6 +50,8 @@ TForward == /\ IsEv("Forward") /\ Consume
 TRecoveryDone == /\ IsEv("RecoveryDone") /\ Consume /\ RecoveryDone
                  /\ E.dropped = Cardinality(s.corrupt) + Cardinality(s.readFailed)
                  /\ E.consumed = Len(s.forwarded)
+                 \* C19: the gauges agree with what is left: every recovered chunk was consumed or dropped, no file stays
+                 /\ E.persistentChunks = E.filesLeft /\ E.pending = 0
 TReset == IsEv("RESET") /\ s.phase = "done" /\ s' = S0 /\ Consume
 
 TNext == TSilent \/ TRespawn \/ TPersist \/ TUnload \/ TVictimEnd \/ TFiles \/ TDamage \/ TFeederLoad \/ TForward \/ TRecoveryDone \/ TReset
